@@ -24,6 +24,7 @@ Inductive re :=
 | BehindStart                                      (* (?<=^) *)
 | AtStart                                          (* ^ without MULTILINE *)
 | AtEnd                                            (* $ without MULTILINE: at end, or before a final \n *)
+| AtEndStrict                                      (* \Z *)
 | Grp (id : nat) (r : re).
 
 (* a matcher state: position, characters before it (nearest first), characters after it *)
@@ -99,6 +100,7 @@ Fixpoint ends (r : re) (st : state) (c : caps) : mres :=
              | [10%N] => [(st, c)]
              | _ => []
              end
+  | AtEndStrict => match after st with [] => [(st, c)] | _ => [] end
   | Grp g r' => map (fun sc => (fst sc, (g, (pos st, pos (fst sc))) :: snd sc)) (ends r' st c)
   end.
 
@@ -167,7 +169,7 @@ Fixpoint nullable (r : re) : bool :=
   | Seq a b => nullable a && nullable b
   | Alt a b => nullable a || nullable b
   | Rep _ mn _ r' => match mn with O => true | S _ => nullable r' end
-  | Look _ _ | Behind _ _ | BehindStart | AtStart | AtEnd => true
+  | Look _ _ | Behind _ _ | BehindStart | AtStart | AtEnd | AtEndStrict => true
   | Grp _ r' => nullable r'
   end.
 
